@@ -1022,6 +1022,15 @@ func (r *Runtime) checkObjectCoercible(v Value) {
 	}
 }
 
+// floatToInt64Mod converts a finite float64 to an int64 that is congruent to the truncated value modulo 2^32
+// (and therefore modulo 2^8 and 2^16). The plain conversion int64(f) is undefined for |f| >= 2^63.
+func floatToInt64Mod(f float64) int64 {
+	if f >= -9223372036854775808 && f < 9223372036854775808 {
+		return int64(f)
+	}
+	return int64(math.Mod(f, 4294967296))
+}
+
 func toInt8(v Value) int8 {
 	v = v.ToNumber()
 	if i, ok := v.(valueInt); ok {
@@ -1031,7 +1040,7 @@ func toInt8(v Value) int8 {
 	if f, ok := v.(valueFloat); ok {
 		f := float64(f)
 		if !math.IsNaN(f) && !math.IsInf(f, 0) {
-			return int8(int64(f))
+			return int8(floatToInt64Mod(f))
 		}
 	}
 	return 0
@@ -1046,7 +1055,7 @@ func toUint8(v Value) uint8 {
 	if f, ok := v.(valueFloat); ok {
 		f := float64(f)
 		if !math.IsNaN(f) && !math.IsInf(f, 0) {
-			return uint8(int64(f))
+			return uint8(floatToInt64Mod(f))
 		}
 	}
 	return 0
@@ -1100,7 +1109,7 @@ func toInt16(v Value) int16 {
 	if f, ok := v.(valueFloat); ok {
 		f := float64(f)
 		if !math.IsNaN(f) && !math.IsInf(f, 0) {
-			return int16(int64(f))
+			return int16(floatToInt64Mod(f))
 		}
 	}
 	return 0
@@ -1115,7 +1124,7 @@ func toUint16(v Value) uint16 {
 	if f, ok := v.(valueFloat); ok {
 		f := float64(f)
 		if !math.IsNaN(f) && !math.IsInf(f, 0) {
-			return uint16(int64(f))
+			return uint16(floatToInt64Mod(f))
 		}
 	}
 	return 0
@@ -1130,7 +1139,7 @@ func toInt32(v Value) int32 {
 	if f, ok := v.(valueFloat); ok {
 		f := float64(f)
 		if !math.IsNaN(f) && !math.IsInf(f, 0) {
-			return int32(int64(f))
+			return int32(floatToInt64Mod(f))
 		}
 	}
 	return 0
@@ -1145,7 +1154,7 @@ func toUint32(v Value) uint32 {
 	if f, ok := v.(valueFloat); ok {
 		f := float64(f)
 		if !math.IsNaN(f) && !math.IsInf(f, 0) {
-			return uint32(int64(f))
+			return uint32(floatToInt64Mod(f))
 		}
 	}
 	return 0
